@@ -219,6 +219,72 @@ fn cases(tier: Tier) -> Vec<Case> {
     out
 }
 
+/// Use sites of the leader function in the replica (proposal.rs, proposer.rs): for a replica in view v,
+/// a proposal for view w >= v is accepted only from `leader(w)` and never refused as "invalid leader"
+/// when it comes from `leader(w)` - whatever v is; and the real run loops (`Config::run`: run_proposer)
+/// only ever emit a proposal for view w signed by `leader(w)`. `leader` is the independent reference.
+fn use_sites(seed: u64) -> (u64, u64, Vec<(String, String, serde_json::Value)>) {
+    use zksync_consensus_roles::validator::v2;
+    use crate::bftsim::{self, Input, Local, Policy, World};
+    let mut viol: Vec<(String, String, serde_json::Value)> = vec![];
+    let (mut steps, mut proposals_seen) = (0u64, 0u64);
+    let modes = [(vec![1u64, 1, 1, 1], false, 1u64), (vec![1, 1, 1, 1], false, 2), (vec![2, 1, 1, 1], true, 1)];
+    for (weights, weighted, freq) in modes {
+        let case = Case { weights: weights.clone(), eligible: (1 << weights.len()) - 1, weighted, freq };
+        let c = util::committee_with(seed, &weights, 0, 0, selection(&case));
+        let pubkeys: Vec<validator::PublicKey> = c.keys.iter().map(|k| k.public()).collect();
+        let w = World { c, proposals: vec![validator::Payload(vec![0x58]), validator::Payload(vec![0x59, 1])], invalid_payload: validator::Payload(vec![0xBA, 0xD0]) };
+        let n = weights.len();
+        let leader = |v: u64| reference(&pubkeys, &case, v).unwrap();
+        let tq = |v: u64| {
+            let votes: Vec<(usize, v2::ReplicaTimeout)> = (0..n).map(|i| (i, w.timeout_vote(v, None, None))).collect();
+            w.timeout_qc(v, &votes)
+        };
+        // (U1) the replica's acceptance test
+        for r in 0..2usize {
+            let l0 = Local::initial();
+            let l1 = bftsim::step(&w, r, &l0, &Input::Msg(w.new_view((r + 1) % n, &v2::ProposalJustification::Timeout(tq(0)))), &Policy::default()).local;
+            for (v, local) in [(0u64, &l0), (1, &l1)] {
+                if local.snap.view_number.0 != v {
+                    viol.push(("machinery".into(), format!("use-site set-up: replica expected in view {v}, is in view {}", local.snap.view_number.0), json!({})));
+                    continue;
+                }
+                for wv in v.max(1)..=v + 2 {
+                    let j = v2::ProposalJustification::Timeout(tq(wv - 1));
+                    for author in 0..n {
+                        let out = bftsim::step(&w, r, local, &Input::Msg(w.proposal(author, &j, Some(w.proposals[0].clone()))), &Policy::default());
+                        steps += 1;
+                        let voted = out.sent.iter().any(|m| matches!(&m.msg, validator::ConsensusMsg::V2(v2::ChonkyMsg::ReplicaCommit(_))));
+                        let refused_leader = matches!(&out.outcome, Some(Err(e)) if e.contains("InvalidLeader"));
+                        let want = author == leader(wv);
+                        let rp = json!({"harness": "c11-use", "mode": case.json(), "replica": r, "replica_view": v, "proposal_view": wv, "author": author});
+                        if voted && !want && !viol.iter().any(|x| x.0 == "proposal_accepted_from_non_leader") {
+                            viol.push(("proposal_accepted_from_non_leader".into(), format!("[proposal_accepted_from_non_leader] schedule {:?}: a replica in view {v} voted for a proposal for view {wv} signed by validator #{author}, but the leader of view {wv} is validator #{}", case, leader(wv)), rp.clone()));
+                        }
+                        if want && refused_leader && !viol.iter().any(|x| x.0 == "leader_refused") {
+                            viol.push(("leader_refused".into(), format!("[leader_refused] schedule {:?}: a replica in view {v} refused the proposal of validator #{author}, the leader of view {wv}, as coming from the wrong leader: {:?}", case, out.outcome), rp));
+                        }
+                    }
+                }
+            }
+        }
+        // (U2) the proposer of the real run loops: a perfect network until 12 proposals have been made
+        let ch = crate::core::Chooser::new(vec![], None);
+        let nodes: Vec<(usize, Local)> = (0..n).map(|i| (i, Local::initial())).collect();
+        let out = bftsim::run_loops_until_proposals(&ch, &w, &nodes, 3, 12);
+        if std::env::var("VERIF_DEBUG").is_ok() {
+            eprintln!("c11 use: mode {:?} -> {:?}", case, out);
+        }
+        for (view, signer) in &out.proposals_routed {
+            proposals_seen += 1;
+            if *signer != leader(*view) && !viol.iter().any(|x| x.0 == "proposal_by_non_leader") {
+                viol.push(("proposal_by_non_leader".into(), format!("[proposal_by_non_leader] schedule {:?}: the run loop of validator #{signer} proposed in view {view}, whose leader is validator #{}", case, leader(*view)), json!({"harness": "c11-use", "mode": case.json()})));
+            }
+        }
+    }
+    (steps, proposals_seen, viol)
+}
+
 pub fn run(args: &Args) -> Report {
     let mut rep = Report::new("C11", "exploration");
     let keys: Vec<validator::PublicKey> = util::validator_keys(args.seed, 10).iter().map(|k| k.public()).collect();
@@ -226,6 +292,12 @@ pub fn run(args: &Args) -> Report {
     let views_perm: Vec<u64> = util::boundary_u64(40);
 
     if let Some(r) = &args.replay {
+        if r["replay"]["harness"] == "c11-use" {
+            for (k, w, rp) in use_sites(args.seed).2 {
+                rep.violations.push(Violation { key: k, what: w, replay: rp });
+            }
+            return rep;
+        }
         let c = Case::from_json(&r["replay"]["case"]);
         let n = c.weights.len();
         let perms = if n <= 5 { util::permutations(n) } else { vec![(0..n).rev().collect(), (0..n).map(|i| (i + 3) % n).collect(), (0..n).map(|i| (i * 7) % n).collect()] };
@@ -263,6 +335,17 @@ pub fn run(args: &Args) -> Report {
     for (k, (cnt, w, r)) in by_class {
         rep.violations.push(Violation { key: k.clone(), what: format!("[{k}] {w} ({cnt} schedules affected)"), replay: r });
     }
+    let (use_steps, use_proposals, use_viol) = use_sites(args.seed);
+    for (k, w, rp) in use_viol {
+        if k == "machinery" {
+            rep.machinery_errors.push(w);
+        } else {
+            rep.violations.push(Violation { key: k, what: w, replay: rp });
+        }
+    }
+    if rep.violations.is_empty() && use_proposals < 6 {
+        rep.machinery_errors.push(format!("vacuous: the real run loops emitted only {use_proposals} proposals"));
+    }
     if multi_leader_cases == 0 {
         rep.machinery_errors.push("vacuous: no schedule produced two different leaders".into());
     }
@@ -272,6 +355,7 @@ pub fn run(args: &Args) -> Report {
         "rule": "every schedule of the scope (weight vectors over {1,2,3} up to the tier's length x every non-empty eligible subset x both modes x frequency in {0,1,2,3,7}; unit schedule of 10; extreme weights) x every view of the boundary set (0..2000, 2^k-2..2^k+2, u64::MAX-2..) evaluated on the real Schedule::view_leader; additionally every permutation of the input list on a reduced view set. Each (schedule, view) pair is distinct by construction; non-trivial = at least two eligible validators",
         "exhaustive": true,
         "schedules": cs.len(),
+        "use_sites": {"replica_steps": use_steps, "proposals_emitted_by_real_run_loops": use_proposals, "rule": "3 schedules (round-robin frequency 1 and 2, weighted) x replica in view 0 / 1 x proposal view v..v+2 x every author through the real on_proposal; the real Config::run loops of all validators on a perfect network until 12 proposals were made, per schedule (default task schedule)"},
         "views_per_schedule": views_full.len(),
         "schedules_with_two_or_more_observed_leaders": multi_leader_cases,
         "samples": [cs[cs.len()/3].json(), cs[cs.len()/2].json(), cs[cs.len()-1].json()],
